@@ -1,0 +1,19 @@
+//go:build verif
+
+package wal
+
+// VerifSegment describes one sealed buffer segment of a writer.
+type VerifSegment struct {
+	LatestSeqNum uint64
+	Len          int
+}
+
+// VerifState exposes the writer's bookkeeping for the C17/C08 correspondence checks.
+func (w *Writer) VerifState() (id int, sealed []VerifSegment, activeLen int, latestSeqNum uint64) {
+	w.mu.Lock()
+	defer w.mu.Unlock()
+	for _, b := range w.sealedBuffers {
+		sealed = append(sealed, VerifSegment{LatestSeqNum: b.latestSeqNum, Len: len(b.buf)})
+	}
+	return w.id, sealed, len(w.activeBuffer.buf), w.latestSeqNum
+}
